@@ -404,7 +404,7 @@ func runResolve(o *Opts) {
 	if exhaustive {
 		nRandom = 20000
 	}
-	alpha := []string{"a", "bb", "c.d", "..", ".", "..", "e-f", "_g"}
+	alpha := []string{"a", "bb", "c.d", "..", ".", "..", "e-f", "_g", ".h", "..i", ".terraform"}
 	randRel := func() sourceaddrs.LocalSource {
 		n := 1 + rng.Intn(9)
 		segs := []string{"."}
@@ -424,7 +424,7 @@ func runResolve(o *Opts) {
 			n := rng.Intn(7)
 			var segs []string
 			for j := 0; j < n; j++ {
-				segs = append(segs, rng.Pick([]string{"a", "bb", "c.d", "e-f", "_g", "..."}))
+				segs = append(segs, rng.Pick([]string{"a", "bb", "c.d", "e-f", "_g", "...", ".h", "..i"}))
 			}
 			suffix := ""
 			if n > 0 {
